@@ -28,7 +28,10 @@ import (
 	ref "verif/ref/obfs4"
 )
 
-var chunkings = []string{"all", "1", "31", "33", "63", "65", "prng"}
+// ("head…": a short first read, then everything that is there with each later
+// read — the response is completed by a read that also brings whatever the
+// server sent behind it; "4096"/"8191": reads as large as a receive buffer)
+var chunkings = []string{"all", "1", "31", "33", "63", "65", "prng", "head50", "headprng", "4096", "8191"}
 
 func chunk(i int, seed uint64) memwire.ChunkPolicy {
 	switch chunkings[i%len(chunkings)] {
@@ -44,6 +47,14 @@ func chunk(i int, seed uint64) memwire.ChunkPolicy {
 		return memwire.Fixed(65)
 	case "prng":
 		return memwire.PRNG(seed, 700)
+	case "head50":
+		return memwire.Script([]int{50}, memwire.All())
+	case "headprng":
+		return memwire.Script([]int{1 + int(seed%1500)}, memwire.All())
+	case "4096":
+		return memwire.Fixed(4096)
+	case "8191":
+		return memwire.Fixed(8191)
 	}
 	return memwire.All()
 }
@@ -332,7 +343,7 @@ func TestCheck(t *testing.T) {
 	r := mon.Start(t, "C02")
 	defer r.Finish()
 	r.SpinWatch(memwire.BytesMoved)
-	r.Note("rule", "per bridge: genuine control (must complete, data both ways; the server speaking first with 100, 8192 or 20000 bytes right behind its handshake, under every chunking); man-in-the-middle on a genuine real server's first write: EVERY single bit of representative, AUTH, mark and MAC (768 bits) plus PRNG-sampled padding bits and seed-frame bits, truncation/insertion/deletion inside every field, field offsets found from public data only; impostor servers (reference implementation with the victim's public B and NODEID but another private key; replay of a recorded genuine response; bridge lines whose public key is any of the 14 encodings of a small-order point, served by a peer that computes AUTH with EXP(B,x)=0); clients configured with NODEID or B differing in one bit or random; all under response chunkings {all,1,31,33,63,65,PRNG}; 32 clients handshaking concurrently against one factory under the race detector; ephemeral representatives of all hellos/responses must be pairwise distinct. Non-trivial = a case whose modification was actually applied (or an impostor/misconfiguration/genuine case that ran); distinct = (bridge, class, position, chunking).")
+	r.Note("rule", "per bridge: genuine control (must complete, data both ways; the server speaking first with 100, 8192 or 20000 bytes right behind its handshake, under every chunking); man-in-the-middle on a genuine real server's first write: EVERY single bit of representative, AUTH, mark and MAC (768 bits) plus PRNG-sampled padding bits and seed-frame bits, truncation/insertion/deletion inside every field, field offsets found from public data only; impostor servers (reference implementation with the victim's public B and NODEID but another private key; replay of a recorded genuine response; bridge lines whose public key is any of the 14 encodings of a small-order point, served by a peer that computes AUTH with EXP(B,x)=0); clients configured with NODEID or B differing in one bit or random; all under response chunkings {all,1,31,33,63,65,PRNG<=700, a short head then everything, 4096, 8191}; 32 clients handshaking concurrently against one factory under the race detector; ephemeral representatives of all hellos/responses must be pairwise distinct. Non-trivial = a case whose modification was actually applied (or an impostor/misconfiguration/genuine case that ran); distinct = (bridge, class, position, chunking).")
 	dir := o4.StateDir("c02")
 	nBridges := r.Pick(4, 24)
 	for bi := 0; bi < nBridges; bi++ {
@@ -475,7 +486,7 @@ func TestCheck(t *testing.T) {
 			if sf == nil {
 				return
 			}
-			for i := 0; i < r.Pick(21, 84); i++ {
+			for i := 0; i < r.Pick(3*len(chunkings), 12*len(chunkings)); i++ {
 				// the server speaks first: 100 bytes, or a bulk of 8..20 KiB right behind
 				// its handshake (under every chunking of what the client reads)
 				serverFirst = []int{100, 8192, 20000}[(i/len(chunkings))%3]
